@@ -152,10 +152,16 @@ func (d *ShareData) Get(key string) (string, bool) {
 func (d *ShareData) Set(key string, val string) {
 	d.mutex.Lock()
 	defer d.mutex.Unlock()
+	oldVal, existed := d.Dict[key]
 	d.Dict[key] = val
 	if d.Save != nil {
 		if err := d.Save(d); err != nil {
-			delete(d.Dict, key)
+			// roll back to exactly what was there before the call
+			if existed {
+				d.Dict[key] = oldVal
+			} else {
+				delete(d.Dict, key)
+			}
 			log.Error("save share data failed",
 				"err", err,
 				"key", key,
